@@ -23,10 +23,11 @@ def run(rep):
     for r in rej:
         c = built[r["tid"] - 1]
         dz = c["design"]
-        called = {k["meth"] for k in dz["callers"]}
+        called = {k["meth"] for k in dz["callers"]} | {k.get("meth2", 0) for k in dz["callers"]}
         uncalled_partner = any((a in called) != (b in called) for a, b in dz["pairs"])
         rep.violation({"component": "simultaneous",
-                       "cfg": {"seed": c["seed"], "kind": dz["kind"], "uncalled_partner_in_chain": uncalled_partner and len(dz["pairs"]) > 1},
+                       "cfg": {"seed": c["seed"], "kind": dz["kind"], "uncalled_partner_in_chain": uncalled_partner and len(dz["pairs"]) > 1,
+                               "shared": dz.get("shared", "")},
                        "clauses": sorted(set(r["clauses"]) & set(PROPS)), "all_failing": r["clauses"], "line": r["line"],
                        "design": c["design"], "observed": c["cycles"][r["line"] - 1]})
     small = [c["design"] for c in built if c["design"]["nin"] <= 6 and len(c["design"]["callers"]) <= 4][: (150 if thorough else 30)]
